@@ -243,7 +243,7 @@ fn main() {
             for v in &out {
                 println!("{}", v);
             }
-            println!("{}", json!({"summary": {"cases": cases, "distinct_nontrivial": distinct.len(), "multi_file": multi, "with_arrays": arrays,
+            println!("{}", json!({"summary": {"cases": cases, "distinct_nontrivial": distinct.len(), "fixed_nontrivial": fixed_settings().len(), "multi_file": multi, "with_arrays": arrays,
                 "renderings_per_case": 3, "determinism_cases": det_cases.len(), "hostile_determinism_cases": hostile, "fresh_processes": procs}}));
         }
         "one" => {
